@@ -137,6 +137,11 @@ class CFModel(CustomModel):
                     # The Type of a resource is a literal, not a value to resolve: rewriting it (a string shaped like a
                     # dynamic reference, or spelled like a boolean) could turn the resource into one of another class.
                     resolved_resource["Type"] = value["Type"]
+                if isinstance(resolved_resource, dict) and isinstance(value.get("Condition"), str):
+                    # Likewise the Condition of a resource is the NAME of a condition: a name spelled like a boolean
+                    # ("True") must not become another name ("true"), or resolving the resolved model would gate the
+                    # resource on a different (or on no) condition.
+                    resolved_resource["Condition"] = value["Condition"]
                 resolved_resources[key] = resolved_resource
         return CFModel(**dict_value, Conditions=resolved_conditions, Resources=resolved_resources)
 
